@@ -91,6 +91,21 @@ def gen(tier, rng):
             cases.append(Case("op1 cint S:%08x" % f32_bits(x), tag="cint-f32"))
         else:
             cases.append(Case("op1 cint D:%016x" % f64_bits(x), tag="cint-f64"))
+    # statements that add Integers themselves: NEXT steps the loop variable with the same checked sum as +
+    import sess
+    loops = [
+        (["10 FOR I%=32766 TO 32767", "20 PRINT I%;", "30 NEXT I%", '40 PRINT "DONE";I%'], ("err", 6, 30)),
+        (["10 A%=-32767:A%=A%-1", "20 FOR I%=-32000 TO A% STEP -700", "30 PRINT I%;", "40 NEXT", '50 PRINT "DONE";I%'], ("err", 6, 40)),
+        (["10 FOR I%=32000 TO 32001 STEP 1000:NEXT:PRINT \"DONE\";I%"], ("err", 6, 10)),
+        (["10 DEFINT K:FOR K=32767 TO 32767:PRINT K;:NEXT K:PRINT \"DONE\""], ("err", 6, 10)),
+        (["10 FOR I%=32765 TO 32766:PRINT I%;:NEXT:PRINT I%"], ("text", " 32765  32766  32767 \n")),
+        (["10 FOR I%=-32767 TO -32768 STEP -1:PRINT I%;:NEXT:PRINT \"DONE\""], ("err", 6, 10)),
+        (["10 FOR I%=1 TO 3 STEP 32767:PRINT I%;:NEXT:PRINT \"DONE\";I%"], ("text", " 1 DONE 32768 \n")),
+    ]
+    loops[-1] = (loops[-1][0], ("err", 6, 10))       # 1 + 32767 leaves the Integer range
+    for prog, want in loops:
+        for prof in PROFILES:
+            cases.append(Case(sess.prog_session(prog), sig=" / ".join(prog), tag="next-step", profile=prof, meta=("loop", want)))
     return cases
 
 
@@ -149,6 +164,20 @@ def expected(line):
 
 
 def monitor(case, r):
+    if case.meta and case.meta[0] == "loop":
+        if r is None:
+            return None
+        if "PANIC" in r or "HANG" in r or "CRASH" in r:
+            return "crash: %s answers %s (profile %s)" % (case.sig, r[-60:], case.profile)
+        want = case.meta[1]
+        text = "".join(bytes.fromhex(e[2:]).decode() for e in r.split("|") if e.startswith("P:"))
+        if want[0] == "err":
+            if ("E:[%d %d " % (want[1], want[2])) not in r or "DONE" in text:
+                return "inexact: the loop %s must stop with error %d in line %d, got %r %s (profile %s)" % (
+                    case.sig, want[1], want[2], text[-80:], [e for e in r.split("|") if e.startswith("E:")][:1], case.profile)
+        elif want[1] not in text:
+            return "inexact: the loop %s must print %r, got %r (profile %s)" % (case.sig, want[1], text[-80:], case.profile)
+        return None
     e = expected(case.line)
     if r in ("PANIC", "HANG", "CRASH"):
         return "crash: %s answers %s (profile %s)" % (case.sig, r, case.profile)
